@@ -10,8 +10,7 @@ from .shared_py import inn,  has, stmt_srcs, contains, module_globals
 FIXED, DYNAMIC, UNLIMITED = 0, 1, 2
 
 
-def ws(s):
-    return re.sub(r'\s+', ' ', s)
+from ..pyfront import ws  # noqa: E402,F401  (whitespace-collapsed, rename/normal-form tolerant `in`)
 
 
 def stiffness(ctx, L):
@@ -154,7 +153,8 @@ def size_formulas(ctx, L):
     src = ws(unparse(ao.node))
     L.check(contains(src, 'if member.is_array and member.byte_size is not None: member.byte_size = member.numeric_size and member.byte_size * member.numeric_size or 0', G),
             'F16.model-formula', 'array-size', ao.site(), 'array slot = element size x numeric size (0 for dynamic/greedy)', src)
-    L.check(contains(src, 'elif member.optional: member.alignment = max(DISC_SIZE, member.alignment) member.byte_size = member.byte_size + member.alignment', G),
+    L.check(contains(src, 'if member.optional:\n    member.alignment = max(DISC_SIZE, member.alignment)\n    member.byte_size = member.byte_size + member.alignment', G)
+            or contains(src, 'if member.optional:\n    member.alignment = max(member.alignment, DISC_SIZE)\n    member.byte_size = member.byte_size + member.alignment', G),
             'F16.model-formula', 'optional-size', ao.site(),
             'optional slot: alignment = max(DISC_SIZE, value alignment), size = value size + that alignment (flag padded to it)', src)
     us = m.func('evaluate_sizes.evaluate_union_size')
@@ -164,21 +164,28 @@ def size_formulas(ctx, L):
              'union alignment = max(DISC_SIZE, max arm alignment)'),
             ('size', 'node_.byte_size = (node_.members and max((x.byte_size for x in node_.members)) or 0) + node_.alignment',
              'union size = largest arm + one alignment unit for the discriminator slot'),
-            ('round-up', 'node_.byte_size = int((node_.byte_size + node_.alignment - 1) / node_.alignment) * node_.alignment',
-             'union size rounded up to its alignment (recognised round-up idiom with consistent operands)')):
-        L.check(contains(src, piece, G), 'F16.model-formula', 'union-' + k, us.site(), why + ' (expected `%s`)' % piece, src)
+            ('round-up', ('node_.byte_size = int((node_.byte_size + node_.alignment - 1) / node_.alignment) * node_.alignment',
+                          'node_.byte_size = (node_.byte_size + node_.alignment - 1) // node_.alignment * node_.alignment',
+                          'node_.byte_size += (node_.alignment - node_.byte_size % node_.alignment) % node_.alignment'),
+             'union size rounded up to its alignment (recognised round-up idioms with consistent operands)')):
+        alts = piece if isinstance(piece, tuple) else (piece,)
+        L.check(any(contains(src, a, G) for a in alts), 'F16.model-formula', 'union-' + k, us.site(), why + ' (expected `%s`)' % alts[0], src)
     ss = m.func('evaluate_sizes.evaluate_struct_size')
     src = ws(unparse(ss.node))
     for k, piece, why in (
-            ('alignment', 'alignment = node_.members and max((x.alignment for x in node_.members)) or 1', 'struct alignment = max member alignment'),
+            ('alignment', ('alignment = node_.members and max((x.alignment for x in node_.members)) or 1',
+                           'alignment = max((x.alignment for x in node_.members)) if node_.members else 1',
+                           'alignment = max([x.alignment for x in node_.members] + [1])',
+                           'alignment = max((x.alignment for x in node_.members), default=1)'), 'struct alignment = max member alignment'),
             ('pad', 'padding = (member.alignment - byte_size % member.alignment) % member.alignment',
              'padding before a member = distance of the running size to the member alignment'),
             ('acc', 'byte_size += member.byte_size + padding', 'running size adds padding and member size'),
-            ('marker', 'if is_member_dynamic(prev_member) and prev_member.alignment < member.alignment: prev_member.padding = -member.alignment else: prev_member.padding = padding',
+            ('marker', 'if is_member_dynamic(prev_member) and prev_member.alignment < member.alignment:\n    prev_member.padding = -member.alignment\nelse:\n    prev_member.padding = padding',
              'after a dynamic member of smaller alignment the padding is the marker -alignment, otherwise the static padding goes to the previous member'),
-            ('end-pad', 'padding = (alignment - byte_size % alignment) % alignment byte_size += padding', 'end padding up to the struct alignment'),
+            ('end-pad', 'padding = (alignment - byte_size % alignment) % alignment\nbyte_size += padding', 'end padding up to the struct alignment'),
             ('result', 'node_.byte_size, node_.alignment = (byte_size, alignment)', 'publishes size and alignment')):
-        L.check(contains(src, piece, G), 'F16.model-formula', 'struct-' + k, ss.site(), why + ' (expected `%s`)' % piece, '')
+        alts = piece if isinstance(piece, tuple) else (piece,)
+        L.check(any(contains(src, a, G) for a in alts), 'F16.model-formula', 'struct-' + k, ss.site(), why + ' (expected `%s`)' % alts[0], '')
     # end padding of a dynamic struct must depend on the last member's size, not only on alignments
     endm = [n for n in ss.walk() if isinstance(n, ast.If) and 'any((is_member_dynamic(m) for m in node_.members))' in ws(unparse(n.test))]
     if len(endm) != 1:
@@ -193,33 +200,58 @@ def size_formulas(ctx, L):
             'codec emits 13 bytes where the documented layout has 16' % ws(unparse(val)), ws(unparse(endm[0])))
     pp = m.func('evaluate_sizes.evaluate_partial_padding_size')
     src = ws(unparse(pp.node))
-    L.check(contains(src, 'for part in [x for x in parts][1:]: part[0].alignment = max(part[0].alignment, max((x.alignment for x in part)))', G),
+    L.check(contains(src, 'for part in [x for x in parts][1:]:\n    part[0].alignment = max(part[0].alignment, max((x.alignment for x in part)))', G)
+            or contains(src, 'for part in list(parts)[1:]:\n    part[0].alignment = max(part[0].alignment, max((x.alignment for x in part)))', G),
             'F16.model-formula', 'block-alignment', pp.site(),
             'the first member of every block after a dynamic field is aligned to the maximum alignment in that block', src)
     ns = m.func('evaluate_sizes.evaluate_node_size')
     src = ws(unparse(ns.node))
-    for k, piece in (('typedef-chain', 'while isinstance(node_, Typedef) and node_.definition: node_ = node_.definition'),
-                     ('composite', 'if isinstance(node_, (Struct, Union)): return (node_.byte_size, node_.alignment)'),
-                     ('enum', 'elif isinstance(node_, Enum): return (ENUM_SIZE, ENUM_SIZE)'),
-                     ('builtin', 'elif node_.type_name in BUILTIN_SIZES: byte_size = BUILTIN_SIZES[node_.type_name] return (byte_size, byte_size)')):
+    for k, piece in (('typedef-chain', 'while isinstance(node_, Typedef) and node_.definition:\n    node_ = node_.definition'),
+                     ('composite', 'if isinstance(node_, (Struct, Union)):\n    return (node_.byte_size, node_.alignment)'),
+                     ('enum', 'if isinstance(node_, Enum):\n    return (ENUM_SIZE, ENUM_SIZE)'),
+                     ('builtin', 'if node_.type_name in BUILTIN_SIZES:\n    byte_size = BUILTIN_SIZES[node_.type_name]\n    return (byte_size, byte_size)')):
         L.check(contains(src, piece, G), 'F16.model-formula', 'node-size-' + k, ns.site(), 'size/alignment of a referenced type (`%s`)' % piece, '')
     ms = m.func('evaluate_sizes.evaluate_member_size')
     src = ws(unparse(ms.node))
-    L.check(contains(src, 'elif member.type_name in BUILTIN_SIZES: byte_size = BUILTIN_SIZES[member.type_name] size_alignment = (byte_size, byte_size)', G)
-            and contains(src, 'elif member.definition: size_alignment = evaluate_node_size(node_=member.definition, parent=node_, member=member)', G)
+    L.check(contains(src, 'if member.type_name in BUILTIN_SIZES:\n    byte_size = BUILTIN_SIZES[member.type_name]\n    size_alignment = (byte_size, byte_size)', G)
+            and contains(src, 'if member.definition:\n    size_alignment = evaluate_node_size(node_=member.definition, parent=node_, member=member)', G)
             and contains(src, 'member.byte_size, member.alignment = size_alignment', G), 'F16.model-formula', 'member-size', ms.site(),
             'a member takes the size/alignment of its definition or of its builtin type', '')
     # order of the passes
     es = m.func('evaluate_sizes')
-    src = ws(unparse(es.node.body[-1]))
-    L.check(contains(src, 'if evaluate_members_sizes(node): [evaluate_array_and_optional_size(mem) for mem in node.members] evaluate_partial_padding_size(node) evaluate_struct_size(node)', G),
-            'F16.pass-order', 'evaluate_sizes|struct', es.site(),
-            'passes must run in this order: member sizes, array/optional slot sizes, block alignment bump, struct size (the '
-            'block bump must see slot alignments, the struct pass must see bumped alignments)', src[:300])
-    L.check(contains(src, 'elif isinstance(node, Union): if evaluate_members_sizes(node): evaluate_union_size(node)', G), 'F16.pass-order',
-            'evaluate_sizes|union', es.site(), 'union size after member sizes', '')
+    loop = [st for st in es.node.body if isinstance(st, ast.For)]
+    if len(loop) != 1:
+        raise AnalysisError('evaluate_sizes: node loop not found')
+
+    def ordered_calls(stmts):
+        out = []
+        for st in stmts:
+            for n in sorted((n for n in ast.walk(st) if isinstance(n, ast.Call) and isinstance(n.func, ast.Name)),
+                            key=lambda n: (n.lineno, n.col_offset)):
+                out.append(n.func.id)
+        return out
+
+    def branch(cls):
+        for n in ast.walk(loop[0]):
+            if isinstance(n, ast.If) and ws(unparse(n.test)) == 'isinstance(%s, %s)' % (unparse(loop[0].target), cls):
+                return n
+        raise AnalysisError('evaluate_sizes: branch for %s not found' % cls)
+    sb = branch('Struct')
+    guarded = [n for n in sb.body if isinstance(n, ast.If) and 'evaluate_members_sizes' in ordered_calls([ast.Expr(value=n.test)])]
+    calls = [c for c in ordered_calls(guarded[0].body) if c.startswith('evaluate_')] if len(guarded) == 1 and len(sb.body) == 1 else None
+    per_member = calls is not None and any(isinstance(n, (ast.For, ast.ListComp)) and 'evaluate_array_and_optional_size' in ordered_calls([n])
+                                            and 'node.members' in ws(unparse(n)).replace(unparse(loop[0].target) + '.members', 'node.members')
+                                            for st in guarded[0].body for n in ast.walk(st))
+    L.check(calls == ['evaluate_array_and_optional_size', 'evaluate_partial_padding_size', 'evaluate_struct_size'] and per_member,
+            'F16.pass-order', 'evaluate_sizes|struct', es.site(sb),
+            'passes must run in this order, each only if every member has a size: member sizes, array/optional slot sizes (for every '
+            'member), block alignment bump, struct size (the block bump must see slot alignments, the struct pass must see bumped '
+            'alignments); found %s' % calls, ws(unparse(sb))[:300])
+    ub = branch('Union')
+    guarded = [n for n in ub.body if isinstance(n, ast.If) and 'evaluate_members_sizes' in ordered_calls([ast.Expr(value=n.test)])]
+    calls = [c for c in ordered_calls(guarded[0].body) if c.startswith('evaluate_')] if len(guarded) == 1 and len(ub.body) == 1 else None
+    L.check(calls == ['evaluate_union_size'], 'F16.pass-order', 'evaluate_sizes|union', es.site(ub), 'union size after member sizes', str(calls))
     em = m.func('evaluate_model')
-    L.check([ws(unparse(s)) for s in em.node.body] == ['topological_sort(nodes)', 'constants = cross_reference(nodes, warn_emitter)',
-                                                         'evaluate_stiffness_kinds(nodes)', 'evaluate_sizes(nodes, warn_emitter)',
-                                                         'return (nodes, constants)'], 'F16.pass-order', 'evaluate_model', em.site(),
-            'sort, cross-reference, kinds, sizes - in this order', str([ws(unparse(s)) for s in em.node.body]))
+    seq = [c for c in ordered_calls(em.node.body) if m.has_func(c)]
+    L.check(seq == ['topological_sort', 'cross_reference', 'evaluate_stiffness_kinds', 'evaluate_sizes'], 'F16.pass-order', 'evaluate_model',
+            em.site(), 'sort, cross-reference, kinds, sizes - in this order', str(seq))
